@@ -178,6 +178,7 @@ class Ctx:
         self.cache = {}
         self.rt_seen = set()
         self.c19_seen = set()
+        self.paths = {}
         self.patched = bool(self.counting and params.get("patch_limits"))
         # worker processes are reused: always (re)set the two limits the counting module reads
         cbm.UINT32_T_MAX = params["cellmax"] if self.patched else 2**32 - 1
@@ -202,8 +203,15 @@ class Ctx:
             return self.CBF(est_elements=est, false_positive_rate=fpr, hash_function=hf)
         if kind == "disk":
             self.seq += 1
-            return self.BFD(os.path.join(self.tmp, f"f{self.seq}.blm"), est_elements=est, false_positive_rate=fpr, hash_function=hf)
+            path = os.path.join(self.tmp, f"f{self.seq}.blm")
+            f = self.BFD(path, est_elements=est, false_positive_rate=fpr, hash_function=hf)
+            self.paths[id(f)] = path
+            return f
         return self.BF(est_elements=est, false_positive_rate=fpr, hash_function=hf)
+
+    def pathof(self, f):
+        """the backing file of an on-disk filter: the harness chose it (no private attribute of the library is needed)"""
+        return self.paths[id(f)]
 
     def alt(self, o):
         """one model action, two entry points of the code: add(key) or add_alt(hashes(key)) (same for remove / check), chosen
@@ -260,9 +268,11 @@ class Ctx:
     def reload(self, f, channel):
         hf = f.hash_function
         if f.is_on_disk:  # close and reopen the same file
-            path = f._filepath
+            path = self.pathof(f)
             f.close()
-            return self.BFD(path, hash_function=hf)
+            g = self.BFD(path, hash_function=hf)
+            self.paths[id(g)] = path
+            return g
         cls = self.CBF if self.counting else self.BF
         if channel == "hex":
             return cls(hex_string=f.export_hex(), hash_function=hf)
@@ -305,7 +315,7 @@ class Ctx:
     def release(self, objs):
         for f in objs.values():
             if getattr(f, "is_on_disk", False):
-                path = f._filepath
+                path = self.paths.pop(id(f), None)
                 f.close()
                 try:
                     os.unlink(path)
@@ -430,7 +440,7 @@ class Ctx:
                     og = self.observe(g[w])
                     same = og == obs[w] and bytes(g[w]) == bytes(f)
                     if f.is_on_disk:
-                        same = same and open(f._filepath, "rb").read() == open(g[w]._filepath, "rb").read()
+                        same = same and open(self.pathof(f), "rb").read() == open(self.pathof(g[w]), "rb").read()
                     t.check(same, "C19", "C19.clear_then_behaves_fresh.bloom", ENGINE, lambda: rp2(fresh_object=og, since_clear=full[cut + 1:]), sig)
                 finally:
                     self.release(g)
@@ -442,7 +452,7 @@ class Ctx:
             fresh = self.new("disk" if f.is_on_disk else "mem", hf)
             same = bytes(f) == bytes(fresh) and self.observe(f) == self.observe(fresh)
             if f.is_on_disk:
-                same = same and open(f._filepath, "rb").read() == open(fresh._filepath, "rb").read()
+                same = same and open(self.pathof(f), "rb").read() == open(self.pathof(fresh), "rb").read()
                 self.release({"x": fresh})
             t.check(same, "C19", "C19.clear_fresh.bloom", ENGINE, rp2, sig)
         if self.counting and o[0] in ("add", "rem"):
@@ -653,7 +663,7 @@ class Ctx:
                 continue
             t.check(bytes(f) == b0 and self.observe(f) == o0, "C19", "C19.bloom_queries_unchanged", ENGINE, lambda: rp(who=who), {"kind": kind})
             if f.is_on_disk:
-                t.check(open(f._filepath, "rb").read() == b0, "C19", "C19.ondisk_file_unchanged", ENGINE, lambda: rp(who=who), {"kind": kind})
+                t.check(open(self.pathof(f), "rb").read() == b0, "C19", "C19.ondisk_file_unchanged", ENGINE, lambda: rp(who=who), {"kind": kind})
             if o0["n"] > 0:
                 t.nontriv(hash(repr((kind, o0["cells"], o0["n"]))))
             g = copy.deepcopy(f) if not f.is_on_disk else None
